@@ -20,7 +20,7 @@ let () = each_line (fun l ->
     let truth = incl_dec a b in
     let ts = if truth then "1" else "0" in
     let fails = ref [] in
-    List.iteri (fun i v -> if v <> ts || not (gate_verdict a b (v = "1")) then fails := names.(i) :: !fails) vs;
+    List.iteri (fun i v -> if v <> "T" (* time limit: inconclusive *) && (v <> ts || not (gate_verdict a b (v = "1"))) then fails := names.(i) :: !fails) vs;
     if Array.length sw = 256 then begin
       if not scrape_ok then fails := "dispatch_scrape" :: !fails;
       Array.iteri (fun k tok ->
@@ -34,4 +34,6 @@ let () = each_line (fun l ->
     ^ (if truth then " included" else " notincluded")
     ^ (if is_empty a then " Aempty" else " Anonempty") ^ (if is_empty b then " Bempty" else " Bnonempty")
     ^ " V=" ^ String.concat "" vs
+    ^ (if List.mem "T" vs then " timeout" else "")
+    ^ (if a.rules <> [] && a.rules = b.rules then " shared_table" else "")
   | _ -> "FAIL exception " ^ o)
